@@ -73,41 +73,49 @@ def run(ctx):
     ctx.rule("C03-fresh-frame", "every application binds in a fresh frame that is not retained elsewhere")
     asp = fb.find(INTERP + "apply_scheme_procedure")
     pa = Prov(asp)
-    ncs = [(b, t) for b, t in asp.calls() if callee_matches(t, "environment::LexicalScope::new_child")]
+    from . import frames
+    fr = frames.analyse(fb)
+    ctx.inst("C03-fresh-frame", "frame-provenance", {"case": fr.case, "created_in": sorted(fr.makers),
+                                                     "detail": [list(x) for x in fr.instances]})
+    ctx.oblige(not fr.problems)
+    for key, msg, where in fr.problems:
+        ctx.report("C03-fresh-frame", key, msg, where)
     dom = asp.dominators()
-    if len(ncs) != 1:
-        ctx.report("C03-fresh-frame", "new_child", "expected exactly one new_child per application", where_of(asp))
-    else:
-        nb = ncs[0][0]
+    if fr.case == "A" and len(fr.creation) == 1:
+        nb = fr.creation[0][1]
         for b, t in asp.calls():
             if callee_matches(t, "LexicalScope::define", "iter_to_last") and nb not in dom[b]:
                 ctx.report("C03-fresh-frame", "order", "a binding is made before the fresh frame exists", where_of(asp, t))
-        child_locals = {l for l in range(len(asp.locals)) if ("call", nb, callee(ncs[0][1])) in pa.roots(l)}
+    # the fresh frame is not retained anywhere else: in every function that holds it between creation and the body
+    for g, nb, nt in fr.creation:
+        pg = Prov(g)
+        child_locals = {l for l in range(len(g.locals)) if ("call", nb, callee(nt)) in pg.roots(l)}
         sinks = set()
-        for b, t in asp.calls():
+        for b, t in g.calls():
             for k, a in enumerate(t["args"]):
                 if mir.op_local(a) in child_locals:
                     sinks.add(callee(t))
         allowed = ("std::rc::Rc::new", "<std::rc::Rc as std::ops::Deref>::deref", "environment::LexicalScope::define",
                    INTERP + "eval_expression", INTERP + "eval_tail_expression", "<std::rc::Rc as std::clone::Clone>::clone",
+                   INTERP + "apply_scheme_procedure", INTERP + "eval_procedure_call", "std::mem::drop",
                    # the formals visitor (a closure capturing &frame; its body is checked by C01-scope-extend)
                    "parser::parser::<impl error::Located<parser::parser::ParameterFormalsBody>>::iter_to_last")
         extra = sorted(s for s in sinks if s not in allowed)
-        ctx.inst("C03-fresh-frame", "child-frame-sinks", sorted(s.rsplit("::", 1)[-1] for s in sinks if s))
+        ctx.inst("C03-fresh-frame", "%s/child-frame-sinks" % g.name.rsplit("::", 1)[-1], sorted(s.rsplit("::", 1)[-1] for s in sinks if s))
         if extra:
-            ctx.report("C03-fresh-frame", "escapes", "the fresh frame is handed to %s" % extra, where_of(asp))
-        for b, i, s in asp.stmts():
-            if s["k"] == "assign" and s["place"]["proj"] and s["place"]["local"] <= asp.arg_count:
-                for pl in mir.rv_places(s["rv"]):
+            ctx.report("C03-fresh-frame", "escapes", "the fresh frame is handed to %s" % extra, where_of(g))
+        for b, i, s2 in g.stmts():
+            if s2["k"] == "assign" and s2["place"]["proj"] and s2["place"]["local"] <= g.arg_count:
+                for pl in mir.rv_places(s2["rv"]):
                     if pl["local"] in child_locals:
-                        ctx.report("C03-fresh-frame", "stored", "the fresh frame is stored into a parameter", where_of(asp, span=s["span"]))
+                        ctx.report("C03-fresh-frame", "stored", "the fresh frame is stored into a parameter", where_of(g, span=s2["span"]))
     # frames are created only here and for library/root environments
     # (value environments only: syntax scopes `LexicalScope<Transformer>` are the parser's business)
     makers = sorted({g.name.split("::{closure")[0] for g in fb.all("lib") for b, t in g.calls()
                      if callee_matches(t, "environment::LexicalScope::new_child")
                      and "Transformer" not in " ".join((t.get("fn") or {}).get("generics", []) + t.get("argtys", []))})
     ctx.inst("C03-fresh-frame", "new_child-callers", makers)
-    allowed_makers = {asp.name}
+    allowed_makers = set(fr.makers) or {asp.name}
     for m in makers:
         if m not in allowed_makers:
             ctx.report("C03-fresh-frame", "maker/" + m, "%s creates child frames" % m, None)
